@@ -14,7 +14,10 @@ import sbmlgen
 
 REQUIRED_THEOREMS = [
     'C09_published_order', 'C09_state_assignment', 'C09_const_assignment', 'C09_simulate_eq_spec',
+    'C09_simulate_eq_spec_partial', 'C09_empty_grid_counterexample',
     'C09_sens_order', 'C09_sens_restricted', 'C09_sens_reduced', 'C09_sens_is_derivative',
+    'C09_sens_all_fixed_counterexample_before_f18d571', 'C09_sens_step_indep', 'C09_sens_reselect',
+    'C09_sens_history', 'C09_reduced_history',
     'C09_reduced_vector', 'C09_reduced_fullVector', 'C09_output_order', 'C09_output_rows',
     'argsortBy_isArgsort']
 RULE = ('generated SBML compartment models (2-6 states as species in 1-3 compartments or rate-rule '
@@ -194,6 +197,22 @@ def check_model(ctx, chi, model, rng, label, oracle=None, inp=None, budget=None)
         if label.startswith('library'):
             tag = 'C09.library_equations' if tag == 'C09.values' else tag
         ctx.spec(tag, ok, inp, {'chi': res, 'oracle': ov, 'rel_err': err})
+    # ---- empty time grid (known finding: `times[-1] + 1` raises; the property demands empty rows)
+    if budget.get('empty_grid', False):        # rare: Ctx keeps at most 200 failing records
+        try:
+            r0 = np.asarray(model.simulate(params, []))
+            c0 = ['ok', int(r0.shape[0]), [int(r0.shape[1])] * int(r0.shape[0])] if r0.ndim == 2 else ['shape', list(r0.shape)]
+        except Exception as e:  # noqa
+            c0 = [core.errkind(e)]
+            ctx.errkinds.add(c0[0])
+        legacy = ctx.model('C09.grid', True, *dargs, outs, list(params), 0)
+        intended = ctx.model('C09.grid', False, *dargs, outs, list(params), 0)
+        ctx.agree('C09.empty_grid', c0, legacy if c0 == legacy else intended, inp)
+        ctx.branches.add('empty-grid:' + ('legacy' if c0 == legacy else 'intended' if c0 == intended else 'other'))
+        ctx.spec('C09.empty_time_grid', c0 == ['ok', len(log_names), [0] * len(log_names)], dict(inp, times=[]),
+                 {'simulate(parameters, [])': c0})
+        ctx.agree('C09.grid_shape', ['ok', len(log_names), [len(times)] * len(log_names)],
+                  ctx.model('C09.grid', True, *dargs, outs, list(params), len(times)), inp)
     # ---- sensitivities: request record
     given = None
     mode = rng.random()
@@ -302,17 +321,12 @@ def check_model(ctx, chi, model, rng, label, oracle=None, inp=None, budget=None)
                      {'set_state': st})
             ctx.spec('C09.const_routing', dict((a, b) for a, b in cc) ==
                      {myo[i]: float(full[i]) for i in range(n_s, n_p)}, rinp, {'set_constant': cc})
-        refsim.clear_record()
-        try:
-            red.enable_sensitivities(True)
-            new_s = last_new()
-            cs = ['ok', list(new_s['sensitivities'][0]), list(new_s['sensitivities'][1])]
-        except Exception as e:  # noqa
-            cs = [core.errkind(e)]
-        mrs = ctx.model('C09.reducedsens', *dargs, outs, pub, mask, vals)
+        cs = red_request(red, pfree, times)
+        mrs = ctx.model('C09.reducedsens', False, *dargs, outs, pub, mask, vals)
         ctx.agree('C09.reduced_sens_request', cs, mrs, rinp)
         want = [('init(%s)' % myo[i]) if i < n_s else myo[i] for i in free]
-        ctx.spec('C09.sens_order', cs[0] == 'ok' and cs[2] == want, rinp, {'requested': cs, 'expected': want})
+        ctx.spec('C09.sens_order', cs[0] == 'ok' and cs[2] == want and cs[3] == len(free), rinp,
+                 {'requested': cs, 'expected': want})
         if cs[0] == 'ok' and oracle is not None and budget.get('reduced_e2e', True):
             r2 = sim_record(red, pfree, times)[0]
             if isinstance(r2, Exception):
@@ -325,6 +339,150 @@ def check_model(ctx, chi, model, rng, label, oracle=None, inp=None, budget=None)
                 tag = 'C09.library_equations' if label.startswith('library') else 'C09.sens_values'
                 ctx.spec(tag, err <= TOL, rinp, {'chi': r2[1], 'oracle': os_, 'rel_err': err})
         red.enable_sensitivities(False)
+    if budget.get('histories', True):
+        check_histories(ctx, chi, model, rng, dargs, states, list(new['inter']), pub, myo, n_s, times, oracle,
+                        dict(inp), label)
+
+
+def red_request(obj, params, times, enable=True):
+    """what a simulate of `obj` asks the solver for: ['ok', dependents|None, independents|None, columns]"""
+    try:
+        if enable:
+            obj.enable_sensitivities(True)
+        res = sim_record(obj, params, times)[0]
+        if isinstance(res, Exception):
+            raise res
+        run = [p for _, c, p in refsim.RECORD if c == 'run'][-1]
+        if run['sensitivities'] is None:
+            cols = int(np.asarray(res[1]).shape[2]) if isinstance(res, tuple) else 0
+            if isinstance(res, tuple) and np.asarray(res[1]).shape[:2] != (len(times), len(run['log'])):
+                return ['badshape', list(np.asarray(res[1]).shape)]
+            return ['ok', None, None, cols]
+        if not isinstance(res, tuple):
+            return ['no-sensitivities-returned']
+        return ['ok', list(run['sensitivities'][0]), list(run['sensitivities'][1]),
+                int(np.asarray(res[1]).shape[2])]
+    except Exception as e:  # noqa
+        return [core.errkind(e)]
+
+
+def check_histories(ctx, chi, model, rng, dargs, states, inter, pub, myo, n_s, times, oracle, inp, label):
+    """the request the solver sees (and the returned block) after a history of solver-rebuilding calls:
+    enabling, re-selecting while enabled, disabling, selecting outputs; on the reduced model also fixing /
+    releasing parameters before or after enabling, including fixing all of them"""
+    n_p = len(pub)
+    admissible = states + inter if not label.startswith('library') else list(model.outputs())
+    params = rng.uniform(0.3, 1.5, n_p)
+
+    def tag_of(i):
+        return ('init(%s)' % myo[i]) if i < n_s else myo[i]
+
+    def rand_outs():
+        k = int(rng.integers(1, min(3, len(admissible)) + 1))
+        return [admissible[int(i)] for i in rng.choice(len(admissible), size=k, replace=False)]
+    # ---- plain model
+    ops, want_sel, cur_outs = [], None, list(model.outputs())
+    if not all(o in states + inter for o in cur_outs):
+        return                                   # renamed outputs: histories are run on myokit names only
+    model.enable_sensitivities(False)
+    ops.append(['o', cur_outs])
+    for _ in range(int(rng.integers(2, 6))):
+        r = rng.random()
+        if r < 0.55:
+            given = None if rng.random() < 0.3 else [pub[int(i)] for i in
+                                                     rng.permutation(n_p)[:int(rng.integers(1, n_p + 1))]]
+            model.enable_sensitivities(True, given)
+            ops.append(['e', given])
+            want_sel = [i for i in range(n_p) if given is None or pub[i] in given]
+        elif r < 0.75:
+            model.enable_sensitivities(False)
+            ops.append(['d'])
+            want_sel = None
+        else:
+            cur_outs = rand_outs()
+            model.set_outputs(cur_outs)
+            ops.append(['o', cur_outs])
+            want_sel = None
+    hinp = dict(inp, history=ops)
+    cs = red_request(model, params, times, enable=False)
+    mh = ctx.model('C09.senshistory', *dargs, pub, ops)
+    ctx.agree('C09.sens_history', cs, mh[:4], hinp)
+    ctx.case('history/plain', nontrivial='history/plain/%s' % ''.join(o[0] for o in ops))
+    want = ['ok', None, None, 0] if want_sel is None else ['ok', cur_outs, [tag_of(i) for i in want_sel],
+                                                          len(want_sel)]
+    ctx.spec('C09.sens_order/after_history', cs == want and model.has_sensitivities() == (want_sel is not None),
+             hinp, {'solver asked for': cs, 'expected': want})
+    model.enable_sensitivities(False)
+    # ---- reduced model
+    red = chi.ReducedMechanisticModel(model)
+    ops, fixed, on = [['o', cur_outs]], {}, False
+    try:
+        for _ in range(int(rng.integers(2, 7))):
+            r = rng.random()
+            if r < 0.3:
+                red.enable_sensitivities(True)
+                ops.append(['e'])
+                on = True
+            elif r < 0.4:
+                red.enable_sensitivities(False)
+                ops.append(['d'])
+                on = False
+            elif r < 0.9:
+                if rng.random() < 0.2:
+                    upd = {n: float(rng.uniform(0.3, 1.5)) for n in pub}          # fix every parameter
+                else:
+                    upd = {}
+                    for i in rng.permutation(n_p)[:int(rng.integers(1, n_p + 1))]:
+                        upd[pub[int(i)]] = None if rng.random() < 0.35 else float(rng.uniform(0.3, 1.5))
+                red.fix_parameters(upd)
+                for k_, v_ in upd.items():
+                    if v_ is None:
+                        fixed.pop(k_, None)
+                    else:
+                        fixed[k_] = v_
+                if fixed:
+                    ops.append(['f', [n in fixed for n in pub], [fixed.get(n, 0.0) for n in pub]])
+                else:
+                    ops.append(['f', None, []])
+            else:
+                cur_outs = rand_outs()
+                red.set_outputs(cur_outs)
+                ops.append(['o', cur_outs])
+                on = False
+    except Exception as e:  # noqa
+        ctx.spec('C09.sens_order/after_history', False, dict(inp, history=ops, fixed=dict(fixed)),
+                 {'raised by the next operation': repr(e)[:300], 'sensitivities_on': on})
+        return
+    free = [i for i in range(n_p) if pub[i] not in fixed]
+    pfree = rng.uniform(0.3, 1.5, len(free))
+    hinp = dict(inp, history=ops, free_parameters=pfree)
+    cs = red_request(red, pfree, times, enable=False)
+    mh = ctx.model('C09.redhistory', *dargs, pub, ops)
+    chi_side = cs + [bool(red.has_sensitivities()), list(red.parameters())] if cs[0] == 'ok' else cs
+    ctx.agree('C09.reduced_history', chi_side, mh[:6] if mh[0] == 'ok' else mh, hinp)
+    ctx.case('history/reduced', nontrivial='history/reduced/%s/%s' % (''.join(o[0] for o in ops),
+                                                                       'allfixed' if not free else 'some'))
+    if not on:
+        want = ['ok', None, None, 0]
+    elif not free:
+        want = ['ok', None, None, 0]
+        ctx.branches.add('reduced:all-fixed-with-sensitivities')
+    else:
+        want = ['ok', cur_outs, [tag_of(i) for i in free], len(free)]
+    ctx.spec('C09.sens_order/after_history', cs == want and bool(red.has_sensitivities()) == on, hinp,
+             {'solver asked for': cs, 'expected': want, 'has_sensitivities': red.has_sensitivities()})
+    if on and free and oracle is not None and rng.random() < 0.5:
+        r2 = sim_record(red, pfree, times)[0]
+        full = np.array([fixed.get(n, 0.0) for n in pub])
+        full[free] = pfree
+        if isinstance(r2, Exception) or not isinstance(r2, tuple):
+            ctx.spec('C09.sens_order/after_history', False, hinp, {'raised': repr(r2)[:200]})
+        else:
+            ov, os_ = oracle(cur_outs, {myo[i]: float(full[i]) for i in range(n_p)}, times, [myo[i] for i in free])
+            err = max(cf.rel_err(r2[1], os_, 1e-3), cf.rel_err(r2[0], ov, 1e-3))
+            ctx.extra['refsim_validation']['comparisons'] += 1
+            ctx.spec('C09.library_equations' if label.startswith('library') else 'C09.sens_values', err <= TOL,
+                     hinp, {'chi': r2[1], 'oracle': os_, 'rel_err': err})
 
 
 # ------------------------------------------------------------------------------------------------
@@ -350,6 +508,7 @@ def run_generated(ctx, chi, i, rng, budget=None, n_states=None, max_states=6):
     cls = chi.SBMLModel if rng.random() < 0.7 else chi.PKPDModel
     model = cls(path)
     os.remove(path)
+    budget = dict(budget or {}, empty_grid=(i % 20 == 0))
     check_model(ctx, chi, model, rng, 'generated:%d' % i, gen_oracle(spec), {'spec': spec}, budget)
 
 
@@ -407,7 +566,7 @@ def run_library(ctx, chi, rng, reps):
             # the library models are checked with their own outputs (only states can be compared with the
             # documented equations of the non-linear ones)
             check_model(ctx, chi, model, rng, label, oracle, {'rep': r},
-                        {'set_outputs': False, 'default_outputs': False})
+                        {'set_outputs': False, 'default_outputs': False, 'empty_grid': r == 0})
     # documented published order of the natural non-trivial case
     import chi.library
     m = chi.library.ModelLibrary().erlotinib_tumour_growth_inhibition_model()
@@ -422,13 +581,13 @@ def run(ctx):
                                       'tolerance': TOL}
     threadpool_limits(limits=1)          # tiny matrices: BLAS threads only burn the shared cores
     try:
-        run_library(ctx, chi, ctx.sub_rng(10 ** 6), 2 if ctx.tier == 'quick' else 10)
+        ctx.guard(run_library, ctx, chi, ctx.sub_rng(10 ** 6), 2 if ctx.tier == 'quick' else 10)
         # every permutation class of three states early, then random sizes
         n = 110 if ctx.tier == 'quick' else 1500
         for i in range(n):
             rng = ctx.sub_rng(i)
-            run_generated(ctx, chi, i, rng, n_states=3 if i < 8 else None,
-                          max_states=6 if ctx.tier == 'quick' else 8)
+            ctx.guard(run_generated, ctx, chi, i, rng, n_states=3 if i < 8 else None,
+                      max_states=6 if ctx.tier == 'quick' else 8)
     finally:
         for d in _TMP:
             shutil.rmtree(d, True)
